@@ -46,6 +46,7 @@ func init() {
 			ruleOldFirst(c, "C03.OLDFIRST", []string{"uniqueIndex"})
 			ruleUnchangedShortcut(c, "C03.UNCHANGED", []string{"uniqueIndex"})
 			rulePathFresh(c, "C03.PATHFRESH")
+			ruleCursorValidity(c, "C03.VALIDNIL", "C03.VALIDSRC", "boltz", "ast")
 			ruleNoRemoveAfterAdd(c, "C03.PHASES", []string{"uniqueIndex", "setIndex"})
 			ruleUniq(c, "C03.UNIQ")
 			ruleEmptyKey(c, "C03.EMPTYKEY")
@@ -72,6 +73,7 @@ func init() {
 			ruleEmptyRef(c, "C04.EMPTYREF")
 			ruleRefStore(c, "C04.REFSTORE")
 			ruleFkExists(c, "C04.EXISTS")
+			ruleKeyPresence(c, "C04.PRESENCE")
 			ruleOwnPresence(c, "C04.PRESENT")
 			ruleOldFirst(c, "C04.OLDFIRST", []string{"fkIndex"})
 			ruleUnchangedShortcut(c, "C04.UNCHANGED", []string{"fkIndex", "fkConstraint"})
